@@ -100,20 +100,21 @@ pub(crate) fn parse_defchordv2(
     Ok(chords_container)
 }
 
-/// True if the action is, or contains, the transparent action.
-fn contains_trans(a: &KanataAction) -> bool {
+/// True if the action is, or contains, an action for which `pred` holds.
+fn contains_action(a: &KanataAction, pred: fn(&KanataAction) -> bool) -> bool {
     use kanata_keyberon::action::Action;
+    if pred(a) {
+        return true;
+    }
+    let c = |a: &KanataAction| contains_action(a, pred);
     match a {
-        Action::Trans => true,
-        Action::MultipleActions(acs) => acs.iter().any(contains_trans),
-        Action::HoldTap(ht) => {
-            contains_trans(&ht.hold) || contains_trans(&ht.tap) || contains_trans(&ht.timeout_action)
-        }
-        Action::OneShot(os) => contains_trans(os.action),
-        Action::TapDance(td) => td.actions.iter().any(|a| contains_trans(a)),
-        Action::Fork(f) => contains_trans(&f.left) || contains_trans(&f.right),
-        Action::Switch(sw) => sw.cases.iter().any(|(_, a, _)| contains_trans(a)),
-        Action::Chords(g) => g.chords.iter().any(|(_, a)| contains_trans(a)),
+        Action::MultipleActions(acs) => acs.iter().any(c),
+        Action::HoldTap(ht) => c(&ht.hold) || c(&ht.tap) || c(&ht.timeout_action),
+        Action::OneShot(os) => c(os.action),
+        Action::TapDance(td) => td.actions.iter().any(|a| c(a)),
+        Action::Fork(f) => c(&f.left) || c(&f.right),
+        Action::Switch(sw) => sw.cases.iter().any(|(_, a, _)| c(a)),
+        Action::Chords(g) => g.chords.iter().any(|(_, a)| c(a)),
         _ => false,
     }
 }
@@ -133,10 +134,18 @@ fn parse_single_chord(
     let action = parse_action(&chunk[1], s)?;
     // The literal `_` is refused by parse_action_atom while chordsv2 is being parsed, but an alias
     // (parsed earlier, without the restriction) may still carry it: check the parsed tree.
-    if contains_trans(action) {
+    if contains_action(action, |a| matches!(a, kanata_keyberon::action::Action::Trans)) {
         bail_expr!(
             &chunk[1],
             "Transparent action is forbidden within chordsv2 (also when it comes from an alias)"
+        );
+    }
+    // Like the transparent action, use-defsrc looks up the position of the pressed key;
+    // a chord fires at a virtual position that has no defsrc entry.
+    if contains_action(action, |a| matches!(a, kanata_keyberon::action::Action::Src)) {
+        bail_expr!(
+            &chunk[1],
+            "use-defsrc is forbidden within chordsv2 (also when it comes from an alias)"
         );
     }
     let timeout = parse_timeout(&chunk[2], s)?;
